@@ -43,6 +43,10 @@ func (c *verifBurstConn) Read(p []byte) (int, error) {
 	return n, nil
 }
 func (c *verifBurstConn) Write(b []byte) (int, error) {
+	if c.closes.Load() > 0 {
+		// the connection is gone: the response is lost
+		return 0, net.ErrClosed
+	}
 	c.mu.Lock()
 	c.written++
 	c.mu.Unlock()
@@ -54,12 +58,25 @@ func (c *verifBurstConn) SetWriteDeadline(time.Time) error  { return nil }
 func (c *verifBurstConn) LocalAddr() net.Addr               { return &net.TCPAddr{IP: net.IP{192, 0, 2, 1}, Port: 53} }
 func (c *verifBurstConn) RemoteAddr() net.Addr              { return &net.TCPAddr{IP: net.IP{192, 0, 2, 7}, Port: 5353} }
 
-// verifSlowHandler counts the queries being processed at the same time; processing
-// takes time (other goroutines run in the middle of it).
+// verifSlowHandler counts the queries being processed at the same time; every query
+// waits inside the handler until the driver lets it finish, so the order in which
+// the in-flight queries complete is a choice of the harness (and replays natively).
 type verifSlowHandler struct {
 	inFlight atomic.Int64
 	maxSeen  atomic.Int64
 	served   atomic.Int64
+	started  chan int
+	gates    [8]chan struct{}
+	finished chan int
+	next     atomic.Int64
+}
+
+func verifNewSlowHandler() *verifSlowHandler {
+	h := &verifSlowHandler{started: make(chan int, 8), finished: make(chan int, 8)}
+	for i := range h.gates {
+		h.gates[i] = make(chan struct{}, 1)
+	}
+	return h
 }
 
 func (h *verifSlowHandler) ServeDNS(ctx context.Context, rw ResponseWriter, req *dns.Msg) error {
@@ -67,10 +84,42 @@ func (h *verifSlowHandler) ServeDNS(ctx context.Context, rw ResponseWriter, req 
 	if n > h.maxSeen.Load() {
 		h.maxSeen.Store(n)
 	}
-	verifYield()
+	k := int(h.next.Add(1) - 1)
+	h.started <- k
+	<-h.gates[k]
 	h.inFlight.Add(-1)
 	h.served.Add(1)
-	return rw.WriteMsg(ctx, req, (&dns.Msg{}).SetReply(req))
+	err := rw.WriteMsg(ctx, req, (&dns.Msg{}).SetReply(req))
+	h.finished <- k
+	return err
+}
+
+// drive lets the in-flight queries finish one at a time in an order chosen by the
+// harness, waiting for the system to settle after each completion.
+func (h *verifSlowHandler) drive(total int) {
+	var inflight []int
+	for done := 0; done < total; {
+		verifRunAll()
+		for more := true; more; {
+			select {
+			case k := <-h.started:
+				inflight = append(inflight, k)
+			default:
+				more = false
+			}
+		}
+		if len(inflight) == 0 {
+			// nothing is being processed: wait for the next query to start
+			inflight = append(inflight, <-h.started)
+			continue
+		}
+		i := verifChoice(len(inflight))
+		k := inflight[i]
+		inflight = append(inflight[:i:i], inflight[i+1:]...)
+		h.gates[k] <- struct{}{}
+		<-h.finished
+		done++
+	}
 }
 
 // VerifC18Pipeline: with pipeline limiting enabled, no more than the configured number
@@ -78,8 +127,8 @@ func (h *verifSlowHandler) ServeDNS(ctx context.Context, rw ResponseWriter, req 
 // size and the order in which the workers run; every query is answered and the
 // connection is closed once at the end.
 //
-//verif:harness name=H18d-pipeline tier=quick bounds="one TCP connection delivering a burst of 1..4 queries then EOF; max_pipeline_count in 1..2 (or limiting disabled); every worker a thread that yields in the middle of the handler; all thread orders at blocking points and yields" reach=done,limited,unlimited maxpaths=300000 switches=0
-//verif:assume worker pool = one thread per task; threads switch at blocking operations, at the handler's explicit yield and when finished
+//verif:harness name=H18d-pipeline tier=quick bounds="one TCP connection delivering a burst of 1..4 queries then EOF; max_pipeline_count in 1..2 (or limiting disabled); every worker a thread that waits inside the handler; the in-flight queries complete one at a time in every order" reach=done,limited,unlimited maxpaths=300000 switches=0
+//verif:assume worker pool = one thread per task; threads switch at blocking operations and when finished; the completion order is chosen by a driver goroutine of the harness
 func VerifC18Pipeline() { verifC18Pipeline(4, 2) }
 
 // VerifC18Pipeline6 is the thorough variant.
@@ -91,7 +140,7 @@ func verifC18Pipeline(maxBurst, maxLimit int) {
 	burst := 1 + verifChoice(maxBurst)
 	limit := uint(1 + verifChoice(maxLimit))
 	enabled := verifChoice(3) != 0
-	h := &verifSlowHandler{}
+	h := verifNewSlowHandler()
 	s := &ServerDNS{
 		ServerBase: newServerBase(ProtoDNS, ConfigBase{Handler: h}),
 		workerPool: newPoolNonblocking(),
@@ -113,6 +162,7 @@ func verifC18Pipeline(maxBurst, maxLimit int) {
 		conn.data = append(conn.data, byte(len(b)>>8), byte(len(b)))
 		conn.data = append(conn.data, b...)
 	}
+	go h.drive(burst)
 	s.wg.Add(1)
 	s.serveTCPConn(context.Background(), conn)
 	verifRunAll()
